@@ -14,7 +14,7 @@ from __future__ import annotations
 
 import re
 
-from .. import common, drive, gen, refmodel, spelling, xf
+from .. import render, common, drive, gen, refmodel, spelling, xf
 from ..model import Row
 from ..refmodel import REF_RE, base_type, parse_params, texts
 
@@ -414,10 +414,57 @@ def thread_pass(ctx):
         sys.setswitchinterval(old)
 
 
+def second_build_forms(ctx):
+    """The same workbook dict built a second time (a server that keeps the parsed workbook, a retry): every bind carries what it carried the first
+    time. Forms with the legacy add_none_option setting and select_multiple rows that have a constraint of their own are among them."""
+    n = 60 if ctx.tier == "quick" else 600
+    for i in range(n):
+        if not ctx.mine(i):
+            continue
+        rng = ctx.rng("second", i)
+        form = make_form(rng, 7000 + i, ctx.tier)
+        if i % 2 == 0 and form.choices:
+            form.settings["add_none_option"] = rng.choice(["yes", "true"])
+            ln = sorted(form.choices)[0]
+            form.survey.append(Row("q", f"select_multiple {ln}", f"sm_own{i}", {"label": "pick", "constraint": "count-selected(.) < 3", "constraint_message": "at most two"}))
+            form.survey.append(Row("q", f"select_multiple {ln}", f"sm_plain{i}", {"label": "pick"}))
+        sheets = form.to_sheets()
+        a = drive.convert_sheets(sheets, fmt="dict", args=form.args)
+        b = drive.convert_sheets(sheets, fmt="dict_twice", args=form.args)
+        ctx.ctr("second_build_forms")
+        ctx.case(sig=f"second-build|{i}|{common.feature_sig(form)}")
+        if not a.ok:
+            continue
+        if not b.ok:
+            ctx.viol("second-build:refused", f"the workbook converts, the same dict object converted again does not: {b.brief()[:200]}", common.witness(form, klass="second-build"))
+            continue
+        ta, tb = _bind_table(a.xform), _bind_table(b.xform)
+        ctx.ctr("binds_compared", len(ta))
+        # ... and the survey stored as JSON and opened again, and built again from the conversion's own intermediate dict
+        try:
+            import json as _json
+            from pyxform.builder import create_survey_element_from_dict
+            from pyxform.xls2xform import convert as _convert
+            res_ = _convert(xlsform=render.render(sheets, "dict"), **form.args)
+            for how, make in (("dumped-and-reloaded", lambda: create_survey_element_from_dict(_json.loads(_json.dumps(res_._survey.to_json_dict())))),
+                              ("rebuilt-from-the-intermediate-dict", lambda: create_survey_element_from_dict(res_._pyxform))):
+                tc = _bind_table(make().to_xml(validate=False, pretty_print=False))
+                ctx.ctr("binds_compared", len(tc))
+                if tc != ta:
+                    ns = next((k for k in ta if tc.get(k) != ta[k]), None) or next(iter(set(tc) - set(ta)), None)
+                    ctx.viol(f"second-build:{how}:binds-differ", f"bind {ns}: converted {ta.get(ns)}, {how} {tc.get(ns)}", common.witness(form, klass="second-build"))
+        except Exception as e:  # noqa: BLE001
+            ctx.viol("second-build:reload-raised", f"{type(e).__name__}: {str(e)[:200]}", common.witness(form, klass="second-build"))
+        if ta != tb:
+            ns = next((k for k in ta if tb.get(k) != ta[k]), None) or next(iter(set(tb) - set(ta)), None)
+            ctx.viol("second-build:binds-differ", f"bind {ns}: first build {ta.get(ns)}, second build of the same dict {tb.get(ns)}", common.witness(form, klass="second-build"))
+
+
 def run_shard(ctx):
     pl = plan(ctx.tier, ctx.seed)
     loop_forms(ctx)
     thread_pass(ctx)
+    second_build_forms(ctx)
     numeric_cell_forms(ctx)
     for i in range(pl["n"]):
         if not ctx.mine(i):
@@ -451,6 +498,9 @@ def replay(w):
     def chk(ctx, wit):
         if wit.get("klass") == "loop":
             loop_forms(ctx)
+            return
+        if wit.get("klass") == "second-build":
+            second_build_forms(ctx)
             return
         if wit.get("klass") == "threads":
             thread_pass(ctx)
